@@ -284,7 +284,7 @@ fn entry_from(st: &St, body: Option<B>, chash: Option<u64>) -> Entry {
 }
 
 fn walk(dirfd: i32, prefix: &B, out: &mut BTreeMap<B, Entry>, depth: usize) {
-    if depth > 64 {
+    if depth > 3000 {
         return;
     }
     let names = match listdir(dirfd) {
